@@ -85,6 +85,37 @@ Theorem C19_retries_use_test_ca_first : forall norm ca testca attempts o rest,
 Proof. exact first_order_directory. Qed.
 Print Assumptions C19_retries_use_test_ca_first.
 
+(** The asynchronous obtain as a whole (doWithRetry around Issue; [outs] = the outcomes of the
+    successive orders, whichever CA they reach; any number of attempts): with a distinct test
+    CA configured, a certificate that ends the loop comes from the production directory; every
+    successful order at the test CA is followed by an order at the production CA; orders go
+    nowhere else; the first attempt orders from production, and (by C19_retries_use_test_ca_first)
+    every later one from the test CA first.  Tied end to end: the real ACMEIssuer against two
+    mock ACME CAs with scripted order outcomes (classes e2e-issue, e2e-async). *)
+Theorem C19_async_test_cert_never_stored : forall norm fuel ca testca outs ds r,
+  testca <> [] -> ca <> testca -> norm ca <> testca ->
+  obtain_async norm fuel ca testca 0 outs = (ds, r) ->
+  (length ds <= length outs)%nat /\
+  (forall d, r = ICert d -> d = norm ca) /\
+  follows testca (norm ca) ds outs /\
+  (forall d, In d ds -> d = testca \/ d = norm ca) /\
+  (forall d, hd_error ds = Some d -> d = norm ca).
+Proof.
+  intros norm fuel ca testca outs ds r Ht Hne Hn H.
+  exact (obtain_async_inv norm fuel ca testca 0%Z outs ds r Ht Hne Hn (Z.le_refl 0) H).
+Qed.
+Print Assumptions C19_async_test_cert_never_stored.
+
+(** what the model of Issue hard-codes, re-read from acmeissuer.go / acmeclient.go on every run:
+    isRetry := attempts > 0; two doIssue calls, the first with [attempts], the second with 0,
+    the second under `isRetry && usedTestCA && am.CA != am.TestCA`, with the HTTP 429 test and
+    the ErrNoRetry wrap; secureCAURL's scheme rule *)
+Theorem C19_issue_shape_as_modelled :
+  issue_retry_threshold = 0%Z /\ issue_second_order_attempts = 0%Z /\ issue_shape_ok = true /\
+  ca_scheme_sep = [58; 47; 47]%N /\ ca_default_scheme = [104; 116; 116; 112; 115; 58; 47; 47]%N.
+Proof. repeat split; reflexivity. Qed.
+Print Assumptions C19_issue_shape_as_modelled.
+
 (** ** (b) jobManager — for every history of submissions, worker steps and job outcomes
     (ok, error, panic), any number of workers *)
 
@@ -145,3 +176,8 @@ Proof. eexists. split; [vm_compute; reflexivity|]. repeat split. Qed.
 Example C19_issue_example :
   issue (fun x => x) [112%N] [116%N] 2 [OrdOk; OrdOk] = ([[116%N]; [112%N]], ICert [112%N]).
 Proof. reflexivity. Qed.
+Example C19_async_example :
+  let p := [112%N] in let t := [116%N] in
+  obtain_async (fun x => x) 10 p t 0 [OrdFail; OrdOk; OrdRateLimited; OrdFail; OrdOk; OrdOk] =
+    ([p; t; p; t; t; p], ICert p) /\ t <> [] /\ p <> t.
+Proof. cbn zeta. split; [vm_compute; reflexivity|]. split; discriminate. Qed.
